@@ -165,5 +165,51 @@ def set_after_get(inp):
     return {'violates': dev > 1e-10, 'max_deviation_from_a_fresh_object_with_the_new_tensors': dev}
 
 
+def superoperator_helpers(inp):
+    """oqupy.operators: vec(A rho B) = left_right_super(A, B) vec(rho) (row-major), left/right_super, commutator, acommutator"""
+    import numpy as np
+    import oqupy.operators as op
+    rng = np.random.default_rng(3)
+    bad = []
+    for d in (2, 3):
+        A = rng.normal(size=(d, d)) + 1j * rng.normal(size=(d, d))
+        B = rng.normal(size=(d, d)) + 1j * rng.normal(size=(d, d))
+        rho = rng.normal(size=(d, d)) + 1j * rng.normal(size=(d, d))
+        v = rho.reshape(-1)
+        want = {'left_super': A @ rho, 'right_super': rho @ A, 'left_right_super': A @ rho @ B, 'commutator': A @ rho - rho @ A,
+                'acommutator': A @ rho + rho @ A}
+        got = {'left_super': op.left_super(A) @ v, 'right_super': op.right_super(A) @ v, 'left_right_super': op.left_right_super(A, B) @ v,
+               'commutator': op.commutator(A) @ v, 'acommutator': op.acommutator(A) @ v}
+        for k in want:
+            dev = float(np.abs(got[k].reshape(d, d) - want[k]).max())
+            if dev > 1e-12:
+                bad.append({'helper': k, 'dimension': d, 'deviation': dev})
+    return {'violates': bool(bad), 'detail': bad}
+
+
+def lindbladian(inp):
+    """system._liouvillian against  -i[H, rho] + g (A rho A^+ - 1/2 {A^+ A, rho})  on random matrices"""
+    import numpy as np
+    from oqupy.system import _liouvillian
+    rng = np.random.default_rng(4)
+    bad = []
+    for d in (2, 3):
+        h = rng.normal(size=(d, d)) + 1j * rng.normal(size=(d, d))
+        H = h + h.conj().T
+        A = rng.normal(size=(d, d)) + 1j * rng.normal(size=(d, d))
+        B = rng.normal(size=(d, d)) + 1j * rng.normal(size=(d, d))
+        rho = rng.normal(size=(d, d)) + 1j * rng.normal(size=(d, d))
+        g1, g2 = 0.3, 0.7
+        L = _liouvillian(H, [g1, g2], [A, B])
+        want = -1j * (H @ rho - rho @ H)
+        for g, X in ((g1, A), (g2, B)):
+            Xd = X.conj().T
+            want = want + g * (X @ rho @ Xd - 0.5 * (Xd @ X @ rho + rho @ Xd @ X))
+        dev = float(np.abs((L @ rho.reshape(-1)).reshape(d, d) - want).max())
+        if dev > 1e-12:
+            bad.append({'dimension': d, 'deviation': dev})
+    return {'violates': bool(bad), 'detail': bad}
+
+
 # thorough tier (bounded native sweeps): (function, inputs, obligation of the open finding it reproduces or None)
-THOROUGH = [('exact_ancilla', {}, None), ('set_after_get', {}, None), ('order_of_environments', {}, 'c03/order-independent[non-commuting-environments]')]
+THOROUGH = [('lindbladian', {}, None), ('superoperator_helpers', {}, None), ('exact_ancilla', {}, None), ('set_after_get', {}, None), ('order_of_environments', {}, 'c03/order-independent[non-commuting-environments]')]
